@@ -432,6 +432,14 @@ func parseListen(cfg map[string]string, cs map[string]CertSource, readTimeout, w
 		WriteTimeout: writeTimeout,
 	}
 
+	// the address is either the first, unnamed value or addr=...; with both, the
+	// result would depend on the iteration order of the map
+	if _, ok := cfg[""]; ok {
+		if _, dup := cfg["addr"]; dup {
+			return Listen{}, fmt.Errorf("listener address given twice")
+		}
+	}
+
 	var csName string
 	for k, v := range cfg {
 		switch k {
